@@ -549,6 +549,22 @@ def _sync_job_workspaces(
             logger.warning(f"Skip directory '{os.path.join(subdir, _subdir)}'.")
 
 
+def _sync_new_job_dry_run(src, dst, exclude, copy, recursive):
+    """Report the files that would be copied into a not yet initialized job."""
+    for fn in sorted(os.listdir(src.path)):
+        if exclude and any([re.match(p, fn) for p in exclude]):
+            logger.debug(f"File named '{fn}' is skipped (excluded).")
+        elif os.path.isfile(src.fn(fn)):
+            copy(src.fn(fn), dst.fn(fn))
+        elif recursive:
+            for root, _, filenames in os.walk(src.fn(fn)):
+                for filename in filenames:
+                    fn_src = os.path.join(root, filename)
+                    copy(fn_src, dst.fn(os.path.relpath(fn_src, src.path)))
+        else:
+            logger.warning(f"Skip directory '{src.fn(fn)}'.")
+
+
 def _identical_path(a, b):
     """Verify if two absolute real paths match."""
     return os.path.abspath(os.path.realpath(a)) == os.path.abspath(os.path.realpath(b))
@@ -669,6 +685,12 @@ def sync_jobs(
         logger.debug(f"Synchronizing job '{src}' (dry run)...")
     else:
         logger.debug(f"Synchronizing job '{src}'...")
+
+    if proxy.dry_run and not os.path.isdir(dst.path):
+        # The destination job would be initialized first and all files copied,
+        # there is nothing to compare with and nothing that could conflict.
+        _sync_new_job_dry_run(src, dst, exclude, proxy.copy, recursive)
+        return
 
     if os.path.isdir(src.path):
         if not dry_run:
